@@ -35,7 +35,12 @@ RULE = (
     "arguments; non-trivial = the probe emits at least one quantum op and was compared on op name, extension, "
     "per-port qubit wiring, output wiring and angle path; distinct by (row, permutation).  T-exec: every method of "
     "std.angles.angle run under CPython on random exact rationals (biased to 0, +-1, small dyadics) against the Lean "
-    "model; non-trivial = all operands non-zero; plus one symbolic Hugr-vs-CPython tree comparison per method"
+    "model; non-trivial = all operands non-zero; plus one symbolic Hugr-vs-CPython tree comparison per method.  "
+    "Execution oracle: generated circuits (every fixed 1-qubit gate, rotations with special angles and angle arithmetic, "
+    "cx/cy/cz/ch/crz/zz_phase/zz_max with the qubits in every order on 3 qubits, toffoli in every order on 3 and 4 qubits, "
+    "12 / 600 random circuits of 6-14 gates on 2-4 qubits) lowered by the real compiler, run on the reference interpreter from "
+    "a random and the |0..0> state for 2 / 4 parameter sets and compared up to global phase with the documented matrices; "
+    "11 measurement-like functions on basis and random states with forced outcomes; distinct by (source hash, parameters, initial state)"
 )
 ASSUMPTIONS = [
     "float64 arithmetic is read as exact arithmetic in a field (rationals in the tie, any field in the theorems); "
@@ -43,21 +48,32 @@ ASSUMPTIONS = [
     "tket.* op semantics are assumed: a quantum op's k-th qubit output is the new state of its k-th qubit input; "
     "tket.rotation.from_halfturns_unchecked(h) is the rotation by h half turns; tket.quantum.Rx/Ry/Rz/CRz read their "
     "rotation operand as the documented theta = halfturns*pi; tket.qsystem.Rz/PhasedX/ZZPhase read float operands in radians",
-    "the gate named by an op (tket.quantum.CX ...) has the documented matrix inside the simulator (not modelled)",
+    "the gate matrices and the projective measurement semantics of the tket ops are those of the reference interpreter "
+    "harness/hugr_interp.py (numpy state vector; validated against the real 1.0.4 emulator only on deterministic circuits of "
+    "H X Y Z S T V Rx Ry Rz CX CZ Toffoli Reset QAlloc QFree MeasureFree, see notes/INTERP.md): an assumption.  Once per run "
+    "every interpreter matrix is compared (all basis states, programs built with the hugr builder) with the hand-written "
+    "documented table of c20_exec.py; a disagreement is reported in evidence (`interp_vs_documented`) and the affected functions "
+    "are left out of the execution oracle, it is not a /repo violation",
+    "tket.qsystem Rz / PhasedX / ZZPhase read their float operands in RADIANS (both /repo's and upstream's std/qsystem pass "
+    "float(angle) = halfturns*pi; tket2-hseries lowers the same way); the shipped interpreter reads them as half turns, "
+    "c20_exec.py rescales these operands in-process when the cross-check detects that reading (`interp_qsystem_radians_override`)",
     "Guppy's claim that a straight-line Guppy body means what the same Python means (C03) for the bodies of angles.py, "
     "checked here only by comparing the lowered float-op tree with the tree traced under CPython",
     "substituting actual arguments for formal parameters is how a call to a Guppy-bodied library function behaves "
     "(model `emit`); checked on every permutation probe, not proved about the compiler",
 ]
 UNMODELLED = [
-    "gate matrices inside the simulator (statevector equality up to global phase)",
-    "measurement / reset / project_z projective semantics (only the binding to the op of that name is checked)",
+    "gate matrices inside the real simulator and its measurement semantics: not modelled in Lean; checked by EXECUTING the real "
+    "lowering on the reference interpreter against the documented matrices / projective Z-basis semantics (sampling; the "
+    "interpreter's own matrices are an assumption, cross-checked against the documented table on every run)",
     "measure_array, discard_array, measure_leaked and MaybeLeaked methods (loop / struct bodies: listed as opaque rows)",
     "floating-point rounding in angle arithmetic",
 ]
 TRUSTED_EXTRA = [
     "the AST reader of harness/props/c20.py (cross-checked against the imported definition objects and against lowered probes)",
     "the Hugr wiring reader of harness/props/c20.py (symbolic forward evaluation of single-block function bodies, calls inlined)",
+    "harness/hugr_interp.py (reference interpreter, shared) and harness/props/c20_exec.py (documented numeric matrices written "
+    "by hand from the docstrings, index-loop state-vector oracle, circuit generator)",
     "local shim adding the ops `Measure`/`MeasureReset` (absent from tket-exts 0.14.2) to the tket.qsystem extension "
     "object so that /repo's std/qsystem imports",
 ]
@@ -69,11 +85,16 @@ MANIFEST = {
     "from_halfturns_unchecked, qsystem gates pass halfturns*pi; table and spec cover each other; angle arithmetic "
     "(+,-,neg,*,/,float,==, constant pi) is a homomorphism into radians over any field; CH = Ry(pi/4) CZ Ry(-pi/4) as "
     "real 4x4 matrices. Table tied by lowering a probe per row and argument permutation and reading op + wiring from the Hugr; "
-    "angle model tied by executing angles.py bodies under CPython on exact rationals.",
-    "level_note": "Partial: simulator gate matrices, measurement semantics and float rounding are not modelled; tket op "
+    "angle model tied by executing angles.py bodies under CPython on exact rationals. Execution oracle (search, not proof): "
+    "generated circuits incl. all qubit orders, angle arithmetic, negative and multi-turn angles, qsystem natives, and "
+    "measure/reset/project_z with forced outcomes are lowered by the real compiler and executed on the reference HUGR "
+    "interpreter; final states equal the product of the documented matrices up to global phase (1e-9).",
+    "level_note": "Partial: the real simulator's gate matrices and measurement semantics are not modelled in Lean; they are "
+    "represented by the reference interpreter (assumed; cross-checked per run against the hand-written documented table; "
+    "qsystem float operands read as radians) and compared by execution on sampled circuits; float rounding not modelled; tket op "
     "port semantics assumed. Trusted: Lean kernel, the AST/Hugr readers in harness/props/c20.py, the documented-gate spec table "
     "Spec/C20.lean. The T-obj tie is exhaustive over rows x permutations (thorough tier), the T-exec tie is sampling.",
-    "technique": "Lean 4 proof over a table regenerated from source (T-src) + extraction from real lowering (T-obj) + CPython execution of std bodies (T-exec)",
+    "technique": "Lean 4 proof over a table regenerated from source (T-src) + extraction from real lowering (T-obj) + CPython execution of std bodies (T-exec) + execution of lowered circuits on the reference HUGR interpreter against documented matrices",
     "design_ref": "DESIGN.md §5 C20",
     "ready": True,
 }
@@ -660,7 +681,7 @@ class _Reader:
             return (short[1:], x, y)
         if short == "feq":
             return ("eq", a[0], a[1])
-        raise WiringError("unread float op " + short)
+        return ("fn", short, a)  # any other float op: kept symbolically
 
 
 def canon(v):
@@ -693,6 +714,8 @@ def canon(v):
         return f"{v[1]}(" + ",".join(canon(x) for x in v[2]) + ")"
     if k == "eq":
         return f"eq({canon(v[1])},{canon(v[2])})"
+    if k == "fn":
+        return f"{v[1]}(" + ",".join(canon(x) for x in v[2]) + ")"
     if k == "PI":
         return "PI"
     if k == "tag":
@@ -864,6 +887,28 @@ def _driver_line(row, perm):
     return f"emit {row['modl']} {row['name']} " + " ".join(toks)
 
 
+def _mask_angles(txt):
+    """replace every `rot(...)` / `rad(...)` argument (balanced parentheses) by `ANGLE`"""
+    out, i = [], 0
+    while i < len(txt):
+        if txt.startswith(("rot(", "rad("), i) and (i == 0 or txt[i - 1] in " ["):
+            depth, j = 0, i + 3
+            while j < len(txt):
+                if txt[j] == "(":
+                    depth += 1
+                elif txt[j] == ")":
+                    depth -= 1
+                    if depth == 0:
+                        break
+                j += 1
+            out.append("ANGLE")
+            i = j + 1
+        else:
+            out.append(txt[i])
+            i += 1
+    return "".join(out)
+
+
 def tie_gates(ctx, rows):
     import feed
 
@@ -930,7 +975,15 @@ def tie_gates(ctx, rows):
         if not doc_order_ok(row):
             orc = "docstring-qubit-order-differs-from-parameters"
         ctx.count(key, nontrivial=("[" in real), kind=row["binding"][0])
-        if real != orc:
+        if real.startswith("wiring-unreadable"):
+            # the reader cannot interpret the lowered body (e.g. a float op it does not know): the syntactic tie no longer
+            # checks; whether the gate is still the documented one is decided by the execution oracle (tie_exec)
+            ctx.broke(f"wiring of {key} unreadable by the T-obj reader: {real}")
+        elif real != orc and _mask_angles(real) == _mask_angles(orc):
+            # same ops, same qubits on the same ports, different *path* of an angle: a syntactic difference that may or
+            # may not change the gate (a full-turn shift is a global phase for rz): the execution oracle decides
+            ctx.broke(f"angle path of {key} differs from the documented one: `{real}` vs `{orc}`")
+        elif real != orc:
             ctx.violation(
                 "probe:" + key,
                 f"{key}: lowered probe applies `{real}` but the documented gate is `{orc}`",
@@ -1207,6 +1260,10 @@ def tie(ctx):
     tie_gates(ctx, rows)
     tie_docs(ctx, rows)
     tie_angles(ctx)
+    sys.path.insert(0, os.path.dirname(os.path.abspath(__file__)))
+    import c20_exec
+
+    c20_exec.tie_exec(ctx, PROBE_PRELUDE)
 
 
 if __name__ == "__main__":
